@@ -1,6 +1,7 @@
 import Dino.Imex
 import Dino.Filters
 import Dino.Dynamics
+import Dino.DynamicsSW
 /-!
 # Invariants — executable definitions for C11 (core Lean only)
 
@@ -12,9 +13,9 @@ import Dino.Dynamics
 * `TM`: a `tree_math` vector together with the Python scalar `0` that the integrators start their
   accumulators from (`h = 0`, `sum(...)`), and the arithmetic of `primitive_equations.StateWithTime`
   / `shallow_water.State` as `tree_math` structs;
-* the four primitive-equation classes and the shallow-water equations as `Imex.ImEx` objects;
-* the shallow-water equation set of `dinosaur/shallow_water.py` over the horizontal record
-  `Dynamics.HOps` (`SW.*`);
+* the four primitive-equation classes and the shallow-water equations (`Dino.DynamicsSW`, the one
+  shallow-water model of the framework) as `Imex.ImEx` objects;
+* the state filters of `filtering.py` on the spectral carrier (`filterLevel`, `filterPE`, `filterSW`);
 * the structural predicate of C11 on flattened spectral leaves (`zeroOff`, `coef00`).
 -/
 namespace Dino.Invariants
@@ -195,23 +196,10 @@ instance [Mul K] [SMul K M] : SMul K (StateWithTime K M) :=
 
 end arith
 
-/-! ## the shallow-water equations over `HOps` (`dinosaur/shallow_water.py`) -/
+/-! ## the shallow-water equations (`Dino.DynamicsSW`, the model shared with C05/C10/C12) as an
+`ImplicitExplicitODE` on `tree_math` vectors -/
 namespace SW
-
-/-- `shallow_water.State` -/
-structure State (M : Type) where
-  vorticity : List M
-  divergence : List M
-  potential : List M
-
-/-- `ShallowWaterEquations` (`coords.horizontal` is the record `ops`; `densityRatios` is the value
- of `get_density_ratios(physics_specs.densities)`) -/
-structure Eqs (K M N : Type) where
-  ops : HOps K M N
-  densityRatios : List (List K)
-  angularVelocity : K
-  orography : Option M
-  referencePotential : List K
+open Dino.DynamicsSW
 
 section
 variable {K M N : Type}
@@ -219,77 +207,50 @@ variable {K M N : Type}
   [Add M] [Sub M] [Neg M] [Zero M] [SMul K M]
   [Add N] [Sub N] [Neg N] [Zero N] [Mul N] [One N] [SMul K N]
 
-instance : Add (State M) :=
-  ⟨fun a b => { vorticity := Col.add a.vorticity b.vorticity
-                divergence := Col.add a.divergence b.divergence
-                potential := Col.add a.potential b.potential }⟩
+/-- `shallow_water.State + shallow_water.State` (`tree_math.struct`) -/
+instance : Add (DynamicsSW.State M) := ⟨DynamicsSW.State.add⟩
 
-instance : SMul K (State M) :=
-  ⟨fun c a => { vorticity := Col.smul c a.vorticity
-                divergence := Col.smul c a.divergence
-                potential := Col.smul c a.potential }⟩
+/-- `scalar * shallow_water.State` -/
+instance : SMul K (DynamicsSW.State M) :=
+  ⟨fun c a => DynamicsSW.State.mapLevels (fun x => c • x) a⟩
 
-/-- multiplication of a modal field by an array indexed by the total wavenumber
- (`x * a[np.newaxis, :]`), written with the wavenumber projections of `HOps` -/
-def lscale (h : HOps K M N) (f : Nat → K) (x : M) : M :=
-  ((List.range h.nL).map fun l => f l • h.lproj l x).foldl (· + ·) 0
-
-variable (e : Eqs K M N)
-
-/-- `ShallowWaterEquations.explicit_terms` -/
-def explicitTerms (s : State M) : State M :=
-  let h := e.ops
-  -- `get_cos_lat_vector(vorticity, divergence, grid)` (default `clip=True`), then `to_nodal`
-  let clv := List.zipWith (fun z d => h.cosLatVector true z d) s.vorticity s.divergence
-  let u := clv.map fun p => h.toNodal p.1
-  let v := clv.map fun p => h.toNodal p.2
-  -- `state_to_nodal`: `to_nodal(clip_wavenumbers(x))`
-  let nodalVorticity := s.vorticity.map fun x => h.toNodal (h.clip x)
-  let nodalPotential := s.potential.map fun x => h.toNodal (h.clip x)
-  let coriolis : N := ((1 + 1) * e.angularVelocity) • h.sinLat
-  let totalVorticity := nodalVorticity.map fun z => z + coriolis
-  let sec2 := h.sec2Lat
-  let bU := (List.zipWith (fun a t => a * t * sec2) u totalVorticity).map h.toModal
-  let bV := (List.zipWith (fun a t => a * t * sec2) v totalVorticity).map h.toModal
-  let gU := (List.zipWith (fun a p => a * p * sec2) u nodalPotential).map h.toModal
-  let gV := (List.zipWith (fun a p => a * p * sec2) v nodalPotential).map h.toModal
-  let en := (List.zipWith (fun a b => ((1 / (1 + 1)) : K) • ((a * a + b * b) * sec2)) u v).map h.toModal
-  let p0 := Col.matvec e.densityRatios s.potential
-  let p := match e.orography with
-    | some o => Col.addLevel p0 o
-    | none => p0
-  { vorticity := List.zipWith (fun a b => h.clip (-(h.divCosLat true (a, b)))) bU bV
-    divergence := List.zipWith (fun pe ab => h.clip (-(h.laplacian pe) + h.curlCosLat true ab))
-      (Col.add p en) (List.zip bU bV)
-    potential := List.zipWith (fun a b => h.clip (-(h.divCosLat true (a, b)))) gU gV }
-
-/-- `ShallowWaterEquations.implicit_terms` -/
-def implicitTerms (s : State M) : State M :=
-  { vorticity := Col.zerosLike s.vorticity
-    divergence := s.potential.map fun x => -(e.ops.laplacian x)
-    potential := List.zipWith (fun (r : K) d => (-r) • d) e.referencePotential s.divergence }
-
-/-- `inverse_schur_complement[k, l] = 1 / (1 - step_size² · ref_potential[k] · eigenvalue[l])` -/
-def inverseSchur (eta r : K) (l : Nat) : K := 1 / (1 - eta * eta * r * e.ops.lapEig l)
-
-/-- `ShallowWaterEquations.implicit_inverse` -/
-def implicitInverse (s : State M) (eta : K) : State M :=
-  let h := e.ops
-  let rdp := List.zip e.referencePotential (List.zip s.divergence s.potential)
-  { vorticity := s.vorticity
-    divergence := rdp.map fun t =>
-      lscale h (inverseSchur e eta t.1) (t.2.1 - eta • h.laplacian t.2.2)
-    potential := rdp.map fun t =>
-      lscale h (inverseSchur e eta t.1) ((-eta * t.1) • t.2.1 + t.2.2) }
-
-/-- the equations as an `ImplicitExplicitODE` on `tree_math` vectors -/
-def imex : ImEx K (TM (State M)) :=
-  { F := TM.lift (explicitTerms e)
-    G := TM.lift (implicitTerms e)
-    Ginv := fun x eta => TM.lift (fun s => implicitInverse e s eta) x }
+/-- `ShallowWaterEquations` as an `ImplicitExplicitODE` on `tree_math` vectors -/
+def imex [LT K] [DecidableLT K] (e : ShallowWaterEquations K M N) :
+    ImEx K (TM (DynamicsSW.State M)) :=
+  { F := TM.lift e.explicitTerms
+    G := TM.lift e.implicitTerms
+    Ginv := fun x eta => TM.lift (e.implicitInverse eta) x }
 
 end
 end SW
+
+/-! ## state filters on the spectral carrier
+
+`filtering._make_filter_fn(scaling)` multiplies every leaf whose trailing shape matches the 1-D
+`scaling` (one factor per total wavenumber) by `scaling[np.newaxis, :]` and leaves every other leaf
+(the scalar `sim_time`) alone.  On the abstract carrier `M` the product with a function of the total
+wavenumber is written with the wavenumber projections of `HOps` (`DynamicsSW.lmul`, as
+`implicit_inverse` of the shallow-water equations); a scaling whose length is not the number of
+total wavenumbers does not preserve the shape and leaves the leaf alone (`_preserves_shape`). -/
+section stateFilters
+variable {K M N : Type}
+  [Add K] [Sub K] [Mul K] [Div K] [Neg K] [Zero K] [One K]
+  [Add M] [Zero M] [SMul K M]
+
+/-- `rescale` on one level of a spectral leaf -/
+def filterLevel (h : HOps K M N) (scal : List K) (x : M) : M :=
+  if scal.length = h.nL then DynamicsSW.lmul h (fun l => scal.getD l 0) x else x
+
+/-- `tree_map(rescale, ·)` on a `StateWithTime`: the clock is the scalar leaf `()` -/
+def filterPE (h : HOps K M N) (scal : List K) (s : StateWithTime K M) : StateWithTime K M :=
+  { state := State.mapLevels (filterLevel h scal) s.state
+    simTime := ((Filters.filterLeaf [scal.length] scal ([], [s.simTime])).2).headD s.simTime }
+
+/-- `tree_map(rescale, ·)` on a `shallow_water.State` -/
+def filterSW (h : HOps K M N) (scal : List K) (s : DynamicsSW.State M) : DynamicsSW.State M :=
+  DynamicsSW.State.mapLevels (filterLevel h scal) s
+
+end stateFilters
 
 /-! ## the primitive-equation classes as `ImplicitExplicitODE`s -/
 section pe
